@@ -12,7 +12,7 @@ Case shape (self-contained, JSON):
      | ["repeat", E, k] | ["power", E, k] | ["choice", [[E, [m, e]], ...], limit|null]
      | ["cond", pred, E, E] | ["until", E, n]            pred := ["lenGt", k] | ["always"] | ["never"]
   prims in the Lean model: mutUniform mutSwap selRandom selSample selTop selBottom selFirst selLast
-     recUniform recSample recKPoint recSegmented; oracle-only prims (run on the real code, property
+     recUniform recSample recKPoint recSegmented recOrder; oracle-only prims (run on the real code, property
      oracle only, no model prediction): see ORACLE_ONLY.
 
 Recorded-oracle technique: every `random.Random` owned by an operator of the expression is replaced
@@ -30,8 +30,8 @@ import tempfile
 from harness.common.framework import Prop
 
 MODEL_PRIMS = ['mutUniform', 'mutSwap', 'selRandom', 'selSample', 'selTop', 'selBottom', 'selFirst',
-               'selLast', 'recUniform', 'recSample', 'recKPoint', 'recSegmented']
-ORACLE_ONLY = ['recAverage', 'recWeightedAverage', 'recPartiallyMapped', 'recOrder', 'recCycle',
+               'selLast', 'recUniform', 'recSample', 'recKPoint', 'recSegmented', 'recOrder']
+ORACLE_ONLY = ['recAverage', 'recWeightedAverage', 'recPartiallyMapped', 'recCycle',
                'selProportional', 'selTopCluster', 'selBottomCluster', 'nsga2SortPipeline',
                'lambdaDrop1', 'lambdaReverse', 'forEachFlatten']
 SELECTORS = {'Random', 'Sample', 'Proportional', 'Top', 'Bottom', 'First', 'Last'}
@@ -195,13 +195,16 @@ class ExprGen:
     """An operation that creates new DNA."""
     r = self.rng
     k = r.weighted([(5, 'mutUniform'), (3, 'mutSwap'), (3, 'recUniform'), (2, 'recSample'),
-                    (3, 'recKPoint'), (2, 'recSegmented')] +
+                    (3, 'recKPoint'), (2, 'recSegmented'), (3, 'recOrder')] +
                    ([(7, 'oo')] if self.oo else []))
     if k == 'oo':
-      k = r.choice(['recAverage', 'recWeightedAverage', 'recPartiallyMapped', 'recOrder', 'recCycle'])
-      if k in ('recPartiallyMapped', 'recOrder', 'recCycle'):
+      k = r.choice(['recAverage', 'recWeightedAverage', 'recPartiallyMapped', 'recCycle'])
+      if k in ('recPartiallyMapped', 'recCycle'):
         return ['seq', self.two_parents(fit), ['prim', k]]
       return ['prim', k]
+    if k == 'recOrder':
+      e = ['prim', k]
+      return e if self.sloppy and r.chance(0.3) else ['seq', self.two_parents(fit), e]
     if k == 'recKPoint':
       e = ['prim', k, r.randint(1, 3)]
       return e if self.sloppy and r.chance(0.3) else ['seq', self.two_parents(fit), e]
@@ -451,7 +454,9 @@ class C14(Prop):
   ]
   assumptions = ['set(DNA) iteration order is irrelevant for point-wise recombination with where=ALL '
                  '(all parent dicts coincide, one child)',
-                 'list(set(range(n)) - used) enumerates the free candidates in increasing order (small ints)']
+                 'list(set(range(n)) - used) enumerates the free candidates in increasing order (small ints)',
+                 'the iteration order of set(DNA) in the permutation recombinators is taken from the recorded run '
+                 '(the model checks that it is a rearrangement of its own deduplicated children)']
 
   def __init__(self):
     self._memo = {}
@@ -468,7 +473,7 @@ class C14(Prop):
       for prim in FIXED_PRIMS:
         r = rng.fork()
         pop = [{'nums': gen_dna(r, spec), 'fit': r.randint(-3, 6)} for _ in range(r.choice([2, 2, 3, 4]))]
-        if prim[1] in ('recKPoint', 'recSegmented'):
+        if prim[1] in ('recKPoint', 'recSegmented', 'recOrder'):
           pop = pop[:2]
         yield {'spec': spec, 'pop': pop, 'expr': prim, 'seed': r.below(1 << 30)}
 
@@ -645,6 +650,7 @@ class C14(Prop):
     import pyglove as pg
     from pyglove.ext.evolution import base
     seen = set()
+    unseeded = []
 
     def walk(o):
       if isinstance(o, (list, tuple)):
@@ -658,13 +664,19 @@ class C14(Prop):
         sd = o.sym_getattr('seed')
         if sd is None:
           raise ValueError('unseeded operator %r' % o)
-        o._random = RecRandom(sd, log)     # pylint: disable=protected-access
+        if o._random is _pyrandom:         # pylint: disable=protected-access
+          # a seed was given but the object draws from the global `random` module (F90): left as
+          # it is, so that the determinism check (two runs, different global seeds) can see it
+          unseeded.append(type(o).__name__)
+        else:
+          o._random = RecRandom(sd, log)   # pylint: disable=protected-access
       if isinstance(o, base.Inversion):
         walk(o._invert_op)                 # pylint: disable=protected-access
         return
       for _, v in o.sym_items():
         walk(v)
     walk(op)
+    return unseeded
 
   # -- observation of real DNA ---------------------------------------------------------------
   @staticmethod
@@ -689,7 +701,7 @@ class C14(Prop):
     walk(dna)
     return nums, bel
 
-  def run_once(self, case, hook):
+  def run_once(self, case, hook, gseed=1):
     """Builds fresh objects and runs the expression once. Returns a dict of observations."""
     import pyglove as pg
     from pyglove.ext.evolution import base
@@ -698,7 +710,8 @@ class C14(Prop):
     log = []
     ctx = {'seed': case.get('seed', 0), 'log': log, 'n': 0}
     op = self.build_expr(case['expr'], ctx)
-    self.install_recorders(op, log)
+    unseeded = self.install_recorders(op, log)
+    _pyrandom.seed(1000003 * gseed + 17)      # a seeded operator must not depend on this
     before = [pg.to_json_str(d) for d in pop]
     ids = {id(d): i for i, d in enumerate(pop)}
     pop_arg = list(pop)
@@ -711,12 +724,28 @@ class C14(Prop):
       rec['json_after'] = [pg.to_json_str(d) if isinstance(d, pg.DNA) else None for d in inputs]
       rec['parent_after'] = [getattr(d, 'sym_parent', None) for d in inputs]
 
+    def note_set_order(self_op, inputs, res):
+      # `list(set(outputs))` of the permutation recombinators: the iteration order of the set is
+      # part of the oracle stream (the model checks that it is a rearrangement of its own children)
+      from pyglove.ext.evolution import recombinators
+      if isinstance(self_op, recombinators.Permutation) and isinstance(res, list) and res is not inputs \
+          and len(res) > 1:
+        items = []
+        for d in res:
+          nums, bel = self.flat(d)
+          items.append({'nums': nums, 'beliefs': bel})
+        log.append(['order', items])
+
     def spy(self_op, inputs, *a, **k):
       cls = type(self_op).__name__
       mod = type(self_op).__module__.rsplit('.', 1)[-1]
       prim = mod in ('mutators', 'selectors', 'recombinators', 'nsga2')
       if not prim or not isinstance(inputs, list):
         return orig_call(self_op, inputs, *a, **k)
+      if not hook:
+        res = orig_call(self_op, inputs, *a, **k)
+        note_set_order(self_op, inputs, res)
+        return res
       rec = {'cls': cls, 'mod': mod, 'op': self_op, 'in': list(inputs),
              'in_parent': [getattr(d, 'sym_parent', None) for d in inputs],
              'in_json': [pg.to_json_str(d) if isinstance(d, pg.DNA) else None for d in inputs]}
@@ -729,10 +758,10 @@ class C14(Prop):
         raise
       rec['out'] = list(res) if isinstance(res, list) else res
       snap_after(rec, inputs)
+      note_set_order(self_op, inputs, res)
       return res
 
-    if hook:
-      base.Operation.__call__ = spy
+    base.Operation.__call__ = spy
     try:
       try:
         out = op(pop_arg)
@@ -741,7 +770,7 @@ class C14(Prop):
     finally:
       base.Operation.__call__ = orig_call
     return {'spec': spec, 'pop': pop, 'pop_arg': pop_arg, 'before': before, 'ids': ids, 'log': log,
-            'calls': calls, 'out': out, 'err': err}
+            'calls': calls, 'out': out, 'err': err, 'unseeded': unseeded}
 
   def canon_out(self, run):
     if run['err'] is not None:
@@ -851,12 +880,7 @@ class C14(Prop):
           if any(v > incounts.get(k, 0) for k, v in counts.items()):
             fail('selector-duplicates:' + c['cls'], '%s returned an input more often than it was given' % c['cls'])
       elif c['mod'] in ('mutators', 'recombinators') and dna_in:
-        # precondition "valid and correctly aligned": also every node must be *bound* to the decision
-        # point of its position (a Swap of two equal-valued entries leaves to_dict() unchanged although
-        # the nodes are bound cross-wise; what a later operator makes of that is F21, not its own fault)
-        if not all(self.bound_ok(case['spec'], d) for d in ins):
-          tainted = True
-        elif all(self.is_valid(spec, d) and self.is_aligned(spec, d) for d in ins):
+        if all(self.is_valid(spec, d) and self.is_aligned(spec, d) for d in ins):
           for d in outs:
             if not isinstance(d, pg.DNA) or not self.is_valid(spec, d):
               fail('invalid-child:' + c['cls'], '%s produced %r, not valid for the spec, from valid parents %r' % (
@@ -886,11 +910,14 @@ class C14(Prop):
       if any(id(d) not in ids for d in run['out']):
         fail('pipeline-nonmember', 'a composition of selectors returned a non-member')
     # --- determinism: same seeds, fresh objects ---
-    run2 = self.run_once(case, hook=False)
+    run2 = self.run_once(case, hook=False, gseed=2)
     model2 = self.canon_out(run2)
     if model2 != model or run2['log'] != run['log']:
-      fail('nondeterministic', 'two runs with equal seeds differ: %s vs %s' % (
-          json.dumps(model)[:300], json.dumps(model2)[:300]))
+      sig = 'nondeterministic'
+      if run['unseeded']:
+        sig = 'seeded-op-draws-from-global-random:' + '+'.join(sorted(set(run['unseeded'])))
+      fail(sig, 'two runs with equal seeds and inputs (and different states of the global `random` module) '
+                'differ: %s vs %s' % (json.dumps(model)[:300], json.dumps(model2)[:300]))
     has_oo = any(p not in MODEL_PRIMS for p in prims)
     if not has_oo and str(os.getpid()) != self._token:     # only pool workers use the side channel
       self._side_put(case, run['log'])
@@ -1165,7 +1192,7 @@ FIXED_SPECS = [
                ['float', [0, 0], [1, 0]]]],
 ]
 FIXED_PRIMS = [['prim', 'mutUniform'], ['prim', 'mutSwap'], ['prim', 'recUniform'], ['prim', 'recSample'],
-               ['prim', 'recKPoint', 1], ['prim', 'recKPoint', 2], ['prim', 'recSegmented', [1]],
+               ['prim', 'recKPoint', 1], ['prim', 'recKPoint', 2], ['prim', 'recSegmented', [1]], ['prim', 'recOrder'],
                ['prim', 'selRandom', 2, False], ['prim', 'selRandom', 3, True], ['prim', 'selSample', 2],
                ['prim', 'selTop', 1], ['prim', 'selBottom', ['frac', 1, 1]], ['prim', 'selFirst', 1],
                ['prim', 'selLast', 1], ['power', ['prim', 'mutUniform'], 3],
